@@ -501,6 +501,12 @@ func (v *FV) fieldArraysRec(st types.Type, i int, mod map[string]bool) {
 }
 
 func (v *FV) callMods(fr *Frame, cc *ssa.CallCommon, mod map[string]bool, all *bool, depth int, scanFn func(*ssa.Function, int, map[*ssa.BasicBlock]bool)) {
+	if cc.IsInvoke() {
+		mod["CALLS"] = true // ghost counter of interface method invocations
+	} else if _, isParam := cc.Value.(*ssa.Parameter); isParam {
+		mod["CALLS"] = true
+		mod["ARGNN"] = true
+	}
 	if b, ok := cc.Value.(*ssa.Builtin); ok {
 		switch b.Name() {
 		case "append":
@@ -1579,8 +1585,8 @@ func (v *FV) convert(fr *Frame, st *State, in *ssa.Convert) {
 		v.setVal(fr, in, v.convInt(x, to))
 	case fi && isFloat(to):
 		fn := "i2f_" + mangle(x.Sort)
-		v.pre("fn "+fn, fmt.Sprintf("(declare-fun %s (%s) F64)", fn, x.Sort))
 		v.sortOf(to)
+		v.pre("fn "+fn, fmt.Sprintf("(declare-fun %s (%s) F64)", fn, x.Sort))
 		v.setVal(fr, in, fmt.Sprintf("(%s %s)", fn, x.T))
 	case isFloat(from) && ti:
 		s := v.sortOf(to)
